@@ -68,3 +68,20 @@ Theorem C04_pagination_complete_index :
     exists items f, search_data lm c t (with_page q 0 []) = Ok (items, [], f) /\
                     ipages lm c t q (S (ix_count ix)) L [] = Some items.
 Proof. exact index_pagination_equals_unpaginated. Qed.
+
+(* the page accounting the theorems above reason about IS the code: the four functions of core/table.go, translated
+   from the Go source on every run (Gen/Funcs.v), compute what the model's SearchData computes *)
+From Minidyn Require Import Gen.Funcs Proofs.GenFuncs.
+
+Theorem C04_page_accounting_is_the_code :
+  (forall k pk sik spk fwd, go_afterStartKey k pk sik spk fwd = after_start_key k pk sik spk fwd) /\
+  (forall ety (matched : bool) cnt,
+     (match ety with ENone | EFilter => S cnt | EKey => if matched then S cnt else cnt | ECond => cnt end) =
+     (if go_shouldCountItem (etype_str ety) matched then S cnt else cnt)) /\
+  (forall limit cnt, negb (Nat.eqb limit 0) && Nat.eqb limit cnt = go_shouldBreakPage cnt limit) /\
+  (forall (last : item) limit scanned size cnt,
+     (match last with [] => false | _ => if Nat.eqb limit 0 then false else Nat.leb scanned size && Nat.leb limit cnt end) =
+     go_shouldReturnNextKey last cnt scanned limit size).
+Proof.
+  exact (conj after_start_key_is_code (conj count_rule_is_code (conj break_rule_is_code lek_rule_is_code))).
+Qed.
